@@ -64,6 +64,11 @@ pub fn scenarios(prop: &str, tier: &str) -> Vec<Scenario> {
                 }
             }
         }
+        // RRT*: a step far below the resolution with a rewiring radius far above it (see props_paths): in the
+        // deep seeded runs choose-parent and rewiring edges become longer than L while extensions never do
+        if prop == "C15" && planners.contains(&Pk::Star) {
+            out.push(b.scenario(b.world_free(), b.params(Pk::Star, 0.02, 50.0, 0.0), &format!("{prop}/{kit}/free/RRTStarx0.02/r50/tiny-step")));
+        }
         // a planner object that has LIVED BEFORE: setup, several iterations on other samples, setup again
         // with the same problem - whatever a planner keeps beside its tree (tables indexed by node,
         // caches, flags) must have been reset with it; the whole BFS then runs from that object
